@@ -104,6 +104,47 @@ def fixtures():
         iss = rules_conn.decimal_buffer_issues(b)
         if bool(iss) != want:
             fails.append("fixture %s: decimal buffer issues %s (expected %s)" % (short, iss, want))
+    # rules evaluated as they are on modules of the fixtures crate that mirror ferrous' paths:
+    # every bad_ twin must be reported, every ok_ twin must stay silent
+    import boolpath, rules_scan, rules_order, rules_rdb, rules_int
+    def run_rule(fn_):
+        r_ = runner.Report("FX", "", {}, {})
+        r_.ctx = ctx
+        fn_(ctx, r_)
+        return {f.fn for f in r_.findings}, r_
+    def expect(label, got, bad, ok):
+        nonlocal n
+        for x in bad:
+            n += 1
+            if not any(g.endswith(x) or g.endswith(x + "::{closure}") for g in got):
+                fails.append("fixture %s: %s must be reported, was not (reported: %s)" % (label, x, sorted(got)))
+        for x in ok:
+            n += 1
+            if any(g.endswith(x) or g.endswith(x + "::{closure}") for g in got):
+                fails.append("fixture %s: %s must be silent, was reported" % (label, x))
+    # boolpath through the SCAN MATCH spec
+    memo = {}
+    got = set()
+    for short in ("bp_bad_flag_never_cleared", "bp_ok_flag", "bp_ok_helper", "bp_ok_map_or", "bp_ok_continue", "bp_bad_map_or_wrong_default", "bp_bad_fast_path_forgets_pattern"):
+        b = ctx.prog.bodies.get("storage::engine::" + short)
+        if b is None:
+            fails.append("fixture %s missing" % short); continue
+        spec = rules_scan.MatchSpec(ctx.prog, b, rules_scan._param_of_type(b, r"^std::option::Option<&\[u8\]>$"), (), memo)
+        ex = boolpath.explore(b, spec)
+        pushes = [i for i, t in b.calls() if rules_scan.PUSH.match(t["f"] or "")]
+        if any(i in ex.reached for i in pushes):
+            got.add("storage::engine::" + short)
+    expect("boolpath/MATCH", got, ["bp_bad_flag_never_cleared", "bp_bad_map_or_wrong_default", "bp_bad_fast_path_forgets_pattern"], ["bp_ok_flag", "bp_ok_helper", "bp_ok_map_or", "bp_ok_continue"])
+    got, _ = run_rule(rules_order.rule_sorted_search(("so::",)))
+    expect("R-SORTED-SEARCH", got, ["sorted_bad_push"], ["sorted_ok_insert_at", "sorted_ok_guarded", "sorted_ok_sorts", "sorted_ok_other_field"])
+    got, _ = run_rule(rules_order.rule_whole_view(("so::",)))
+    expect("R-SEQ-WHOLE", got, ["seq_bad_first_slice"], ["seq_ok_both", "seq_ok_contiguous"])
+    got, _ = run_rule(rules_conn.rule_codec_shorttest)
+    expect("R-CODEC-SHORTTEST", got, ["short_bad_starts_with"], ["short_ok_starts_with", "short_ok_negative_is_incomplete"])
+    got, _ = run_rule(rules_rdb.rule_carry)
+    expect("R-RDB-CARRY", got, ["carry_bad_early_return"], ["carry_ok_reset_everywhere"])
+    got, _ = run_rule(rules_int.rule_rdb_text_numbers)
+    expect("R-RDB-TEXTNUM", got, ["textnum_bad"], ["textnum_ok"])
     _FX = (n, fails)
     return _FX
 
